@@ -1,6 +1,7 @@
 //! replay for C27 against the real pallas-network2 crate; exit 1 if the property is violated.
 //!   replay_c27 rediscover_warm   : IncludePeer(A); Housekeeping (A becomes warm); IncludePeer(A) again
 //!   replay_c27 demote_untracked  : max_peers = 1; discover A; demote_peer(B) for an unknown B; peer_deficit()
+//!   replay_c27 ban_command       : IncludePeer(A); BanPeer(A); Housekeeping — no Connect(A) may be emitted
 use pallas_network2::behavior::{InitiatorBehavior, InitiatorCommand, InitiatorState, PromotionBehavior, PromotionConfig};
 use pallas_network2::{Behavior, PeerId};
 
@@ -41,6 +42,25 @@ async fn main() {
             let r = std::panic::catch_unwind(std::panic::AssertUnwindSafe(|| p.peer_deficit()));
             match r { Ok(d) => println!("peer_deficit() = {d}"), Err(_) => println!("VIOLATED: peer_deficit() panicked (subtraction overflow)") }
             bad
+        }
+        "ban_command" => {
+            use futures::StreamExt;
+            use pallas_network2::{BehaviorOutput, InterfaceCommand};
+            let mut b = InitiatorBehavior::default();
+            b.execute(InitiatorCommand::IncludePeer(pid(1)));
+            b.execute(InitiatorCommand::BanPeer(pid(1)));
+            b.execute(InitiatorCommand::Housekeeping);
+            let waker = futures::task::noop_waker();
+            let mut cx = std::task::Context::from_waker(&waker);
+            let mut bad = false;
+            while let std::task::Poll::Ready(Some(o)) = b.poll_next_unpin(&mut cx) {
+                if let BehaviorOutput::InterfaceCommand(InterfaceCommand::Connect(p)) = o {
+                    println!("VIOLATED: Connect({p}) emitted after BanPeer({p})");
+                    bad = true;
+                }
+            }
+            println!("banned set contains peer = {}", b.promotion.banned_peers.contains(&pid(1)));
+            report(&b.promotion, 100) || bad
         }
         _ => { eprintln!("unknown case"); std::process::exit(2) }
     };
